@@ -69,7 +69,7 @@ def _subset(n, k):
 def _slicer(draw, n_in, cover=False, allow_T=True):
     """A slicer that can be applied to an operand with n_in rows.  Returns the spec."""
     T = allow_T and draw(st.sampled_from([False, False, True]))
-    if not cover and draw(st.integers(0, 24)) == 0:
+    if not cover and draw(st.sampled_from([False] * 30 + [True])):
         other = draw(st.integers(1, 3))
         if T:
             return {"dom": [], "rng": [], "rsize": n_in, "dsize": other, "T": True}
